@@ -146,17 +146,17 @@ func hasSpecial(s string) bool { return strings.ContainsAny(s, "\\\"{}") }
 // ---------------------------------------------------------------- printer
 
 type printer struct {
-	ch       chooser
-	dense    bool
-	sb       strings.Builder
-	escaped  int // escaped runes in top-level text
-	rawClose int // '}' printed raw outside braces
-	ctrlEsc  int // \n \t \r written as escapes inside quoted literal arguments
+	ch           chooser
+	dense        bool
+	sb           strings.Builder
+	escaped      int    // escaped runes in top-level text
+	rawClose     int    // '}' printed raw outside braces
+	ctrlEsc      int    // \n \t \r written as escapes inside quoted literal arguments
 	ctrlEscDepth [8]int // the same by call depth
-	calls    int
-	stmts    int
-	maxDepth int
-	bad      string // generator bug (inadmissible tree): never judged
+	calls        int
+	stmts        int
+	maxDepth     int
+	bad          string // generator bug (inadmissible tree): never judged
 	// rawCloseOK: the template is well formed, so a '}' in top-level text is
 	// outside any braces and may also be printed unescaped ("Anything not
 	// surrounded by {} is a literal").
